@@ -158,9 +158,15 @@ impl DnsCache {
     pub(crate) fn get_addresses_for_host(&self, host: &str) -> HashMap<String, HashSet<ScopedIp>> {
         let hostname_lower = host.to_lowercase();
         let mut result = HashMap::new();
+        let now = current_time_millis();
 
         if let Some(records) = self.addr.get(&hostname_lower) {
             for record in records {
+                // Skip records that have expired but are not evicted yet.
+                if record.record.get_record().is_expired(now) {
+                    continue;
+                }
+
                 if let Some(dns_addr) = record.record.any().downcast_ref::<DnsAddress>() {
                     let record_name = record.record.get_name().to_string();
                     let address = dns_addr.address();
